@@ -579,8 +579,91 @@ theorem named_eq_metric (T : Trans K) (C : Cell K) (h : CellOK C) (f1 f2 : V3 K)
 end distance
 
 /-- a monoclinic-type cell that meets `CellOK`: a=3, b=4, c=5, cos γ = 3/5, sin γ = 4/5, cos α = cos β = 0, V = 48 -/
-example : CellOK ({ a := 3, b := 4, c := 5, ca := 0, cb := 0, cg := 3 / 5, sg := 4 / 5, v := 48 } : Cell ℚ) := by
+example : CellOK ({ a := 3, b := 4, c := 5, ca := 0, cb := 0, cg := 3 / 5, sb := 1, sg := 4 / 5, v := 48 } : Cell ℚ) := by
   refine ⟨?_, ?_, ?_, ?_, ?_⟩ <;> norm_num
+
+
+/-! ### the second fractional → Cartesian route (`misc.frac_to_cart`: `add_atom`, grown atoms) -/
+
+section routes
+
+/-- what is assumed of the cell for the `cos α*` route in addition to `CellOK`: positive lengths, sines and volume,
+    `sin²β + cos²β = 1` -/
+structure CellPos (C : Cell ℝ) : Prop where
+  a_pos : 0 < C.a
+  b_pos : 0 < C.b
+  c_pos : 0 < C.c
+  sb_pos : 0 < C.sb
+  sg_pos : 0 < C.sg
+  v_pos : 0 < C.v
+  sb_cb : C.sb * C.sb + C.cb * C.cb = 1
+
+/-- **frac_to_cart_agrees**: `misc.frac_to_cart` (the `cos α*` formulae) and the orthogonal matrix give the *same*
+    Cartesian coordinates, so an atom made by `add_atom()`/`grow()` and an atom parsed from the file text live in
+    one frame and every angle, torsion angle and named distance theorem applies to any mixture of them. -/
+theorem frac_to_cart_agrees (T : Trans ℝ) (hs : SqrtOK T) (C : Cell ℝ) (h : CellOK C) (hp : CellPos C) (f : V3 ℝ) :
+    cartAstar T C f = cart C f := by
+  obtain ⟨ha, hb, hsg, hsc, hvol⟩ := h
+  obtain ⟨pa, pb, pc, psb, psg, pv, hsb⟩ := hp
+  have hden : C.sb * C.sg ≠ 0 := (mul_pos psb psg).ne'
+  -- y component: -c sin β cos α* = c (cos α − cos β cos γ) / sin γ
+  have ey : -C.c * C.sb * ((C.cb * C.cg - C.ca) / (C.sb * C.sg)) = C.c * (C.ca - C.cb * C.cg) / C.sg := by
+    field_simp
+    ring
+  -- z component: c sin β sin α* = V / (a b sin γ): both are positive and have the same square
+  set cs := (C.cb * C.cg - C.ca) / (C.sb * C.sg) with hcs
+  have hcs' : cs * (C.sb * C.sg) = C.cb * C.cg - C.ca := div_mul_cancel₀ _ hden
+  have hab : 0 < C.a * C.b * C.sg := mul_pos (mul_pos pa pb) psg
+  set w := C.v / (C.a * C.b * C.sg) with hw
+  have hw' : w * (C.a * C.b * C.sg) = C.v := div_mul_cancel₀ _ hab.ne'
+  have hwpos : 0 < w := div_pos pv hab
+  -- (c sb)² (1 − cs²) = w²
+  have hsq : (C.c * C.sb) * (C.c * C.sb) * (1 - cs * cs) = w * w := by
+    have h1 : ((C.c * C.sb) * (C.c * C.sb) * (1 - cs * cs)) * ((C.a * C.b * C.sg) * (C.a * C.b * C.sg))
+        = (w * w) * ((C.a * C.b * C.sg) * (C.a * C.b * C.sg)) := by
+      linear_combination (-(C.c * C.c * (C.a * C.b) * (C.a * C.b)) * (cs * (C.sb * C.sg) + (C.cb * C.cg - C.ca))) * hcs'
+        - (w * (C.a * C.b * C.sg) + C.v) * hw' - hvol
+        + (C.c * C.c * (C.a * C.b) * (C.a * C.b) * C.sg * C.sg) * hsb
+        + (C.c * C.c * (C.a * C.b) * (C.a * C.b) * (1 - C.cb * C.cb)) * hsc
+    exact mul_right_cancel₀ (mul_ne_zero hab.ne' hab.ne') h1
+  have hcsb : 0 < C.c * C.sb := mul_pos pc psb
+  have hrad : 0 ≤ 1 - cs * cs := by
+    have : 0 ≤ (C.c * C.sb) * (C.c * C.sb) * (1 - cs * cs) := by rw [hsq]; exact mul_self_nonneg w
+    by_contra hneg
+    have hneg' := not_le.mp hneg
+    have := mul_neg_of_pos_of_neg (mul_pos hcsb hcsb) hneg'
+    linarith
+  have hsn := hs.nonneg _ hrad
+  have hss := hs.sq _ hrad
+  have ez : C.c * C.sb * T.sqrt (1 - cs * cs) = w := by
+    have hx : 0 ≤ C.c * C.sb * T.sqrt (1 - cs * cs) := mul_nonneg hcsb.le hsn
+    have hxx : (C.c * C.sb * T.sqrt (1 - cs * cs)) * (C.c * C.sb * T.sqrt (1 - cs * cs)) = w * w := by
+      have e : (C.c * C.sb * T.sqrt (1 - cs * cs)) * (C.c * C.sb * T.sqrt (1 - cs * cs))
+          = (C.c * C.sb) * (C.c * C.sb) * (T.sqrt (1 - cs * cs) * T.sqrt (1 - cs * cs)) := by ring
+      rw [e, hss, hsq]
+    nlinarith
+  simp only [cartAstar, cart, V3.mk.injEq]
+  rw [← hcs, ey, ez]
+  refine ⟨by ring, by ring, by ring⟩
+
+/-- whichever way an atom entered the model, its Cartesian coordinates are `M · frac` -/
+theorem cartVia_eq (T : Trans ℝ) (hs : SqrtOK T) (C : Cell ℝ) (h : CellOK C) (hp : CellPos C) (r : Bool) (f : V3 ℝ) :
+    cartVia T C r f = cart C f := by
+  cases r
+  · rfl
+  · exact frac_to_cart_agrees T hs C h hp f
+
+/-- **named_distance_any_route**: `Atoms.distance` is the crystal distance `sqrt(Δᵀ G Δ)` for atoms of any origin -/
+theorem named_distance_any_route (T : Trans ℝ) (hs : SqrtOK T) (C : Cell ℝ) (h : CellOK C) (hp : CellPos C)
+    (r1 r2 : Bool) (f1 f2 : V3 ℝ) : distanceVia T C r1 r2 f1 f2 = specDistance T C f1 f2 := by
+  simp only [distanceVia, cartVia_eq T hs C h hp]
+  exact named_distance_euclid T C h f1 f2
+
+end routes
+
+/-- a cell with oblique γ that meets `CellOK` and `CellPos` -/
+example : CellPos ({ a := 3, b := 4, c := 5, ca := 0, cb := 0, cg := 3 / 5, sb := 1, sg := 4 / 5, v := 48 } : Cell ℝ) := by
+  refine ⟨?_, ?_, ?_, ?_, ?_, ?_, ?_⟩ <;> norm_num
 
 /-! ### neighbour search -/
 
